@@ -418,4 +418,78 @@ theorem b_applyCancelU (ub : List Beh) (st : St) (k : Int) : BStep [] st (applyC
 theorem qinv_applyCancelU (ub : List Beh) (st : St) (k : Int) (q : QInv st) : QInv (applyCancelU ub st k) :=
   (pres_applyCancelU ub st k).qinv q
 
+/-! ### what the handler registered: queued when the cancel returns, and run exactly once -/
+
+/-- Every timer / deferred callback that the unbind handler registered through the harness's table (a record whose
+    watch did not exist before the cancel) is, when `tickit_watch_cancel` has returned: allocated, not yet invoked, and
+    in its queue — for every state with the bundle, every handler (`ub`), whatever else the handler did. -/
+theorem unbind_registered_is_queued (ub : List Beh) (st : St) (k : Int) (b : B [] st) (hal : st.alive = true)
+    (hok : (applyCancelU ub st k).status = .ok) :
+    ∀ r ∈ (applyCancelU ub st k).slots, st.heap.length ≤ r.handle → r.k ∉ (applyCancelU ub st k).cancelReq →
+      isOneShot ((applyCancelU ub st k).getW r.handle).type = true →
+      (applyCancelU ub st k).live r.handle = true ∧ r.fires = 0 ∧
+      (((applyCancelU ub st k).getW r.handle).type = .timer → r.handle ∈ (applyCancelU ub st k).timers) ∧
+      (((applyCancelU ub st k).getW r.handle).type = .later → r.handle ∈ (applyCancelU ub st k).laters) := by
+  have b' := b_applyCancelU ub st k b
+  have r2 := r2_applyCancelU ub st k b.k
+  have hok' : (applyCancelU ub st k).isOk = true := (St.isOk_iff _).mpr hok
+  have hal' : (applyCancelU ub st k).alive = true := r2.alive.trans hal
+  intro r hr hnew hnc ho
+  obtain ⟨hlt, hslot⟩ := b'.k.s3 r hr
+  have hl : (applyCancelU ub st k).live r.handle = true := by
+    cases hd : (applyCancelU ub st k).live r.handle with
+    | true => rfl
+    | false =>
+      exfalso
+      rcases r2.gone r.handle hlt (fun h => absurd h (by omega)) hd with e | e | e
+      · rw [e] at ho; cases ho
+      · rw [hslot] at e; exact hnc e
+      · rw [hslot] at e; have := b'.k.s4 r hr; omega
+  obtain ⟨l1, l2⟩ := b'.li hok' hal' r.handle hlt hl
+  exact ⟨hl, (b'.o r hr ho).2.1 hok' hl (by intro h; cases h),
+    fun ht => (l1 ht).elim id (fun h => by cases h), fun ht => (l2 ht).elim id (fun h => by cases h)⟩
+
+/-- The state an iteration starts from after the cancel (`tickit_tick` sets `still_running`, the harness empties its log). -/
+def afterCancelU (ub : List Beh) (st : St) (k : Int) : St :=
+  { applyCancelU ub st k with stillRunning := true, log := [] }
+
+theorem b_afterCancelU (ub : List Beh) (st : St) (k : Int) (b : B [] st) : B [] (afterCancelU ub st k) :=
+  BStep.of_q0 (Q0.of_eq rfl rfl rfl rfl : Q0 (applyCancelU ub st k) (afterCancelU ub st k))
+    (G4.of_eq rfl rfl rfl rfl rfl rfl rfl : G4 (applyCancelU ub st k) (afterCancelU ub st k)).lstep
+    (R2.of_eq rfl rfl rfl rfl rfl rfl) (b_applyCancelU ub st k b)
+
+theorem qinv_afterCancelU (ub : List Beh) (st : St) (k : Int) (q : QInv st) : QInv (afterCancelU ub st k) :=
+  (qinv_applyCancelU ub st k q).grow (Grow.of_eq rfl rfl)
+
+/-- Exactly once: a timer the unbind handler registered that is due when the timer phase of the next iteration starts,
+    and a deferred callback the handler registered — if no cancel is asked for it by the time that iteration ends —
+    has not been invoked when the cancel returns, is gone when the iteration ends, and its count of FIRE invocations
+    is then exactly 1.  Every state with the bundle (every reachable state: `b_runOps`), every handler, every fuel. -/
+theorem unbind_registered_runs_once (fuel : Nat) (ub : List Beh) (st : St) (k : Int) (nohang : Bool) (b : B [] st) (q : QInv st)
+    (hal : st.alive = true) (hok1 : (applyCancelU ub st k).status = .ok)
+    (hok2 : (tick fuel (afterCancelU ub st k) nohang).status = .ok) :
+    ∀ r ∈ (applyCancelU ub st k).slots, st.heap.length ≤ r.handle →
+      r.k ∉ (tick fuel (afterCancelU ub st k) nohang).cancelReq →
+      ((((applyCancelU ub st k).getW r.handle).type = .timer ∧
+          ((applyCancelU ub st k).getW r.handle).due.gt (TV.ofUs (phaseClock (afterCancelU ub st k) nohang)) = false) ∨
+        ((applyCancelU ub st k).getW r.handle).type = .later) →
+      r.fires = 0 ∧
+      (r.handle ∈ (applyCancelU ub st k).timers ∨ r.handle ∈ (applyCancelU ub st k).laters) ∧
+      (tick fuel (afterCancelU ub st k) nohang).live r.handle = false ∧
+      ∃ r' ∈ (tick fuel (afterCancelU ub st k) nohang).slots, r'.k = r.k ∧ r'.handle = r.handle ∧ r'.fires = 1 := by
+  have b1 := b_afterCancelU ub st k b
+  have q1 := qinv_afterCancelU ub st k q
+  have hal1 : (afterCancelU ub st k).alive = true := (r2_applyCancelU ub st k b.k).alive.trans hal
+  obtain ⟨_, ty⟩ := bt_tick [] fuel (afterCancelU ub st k) nohang b1
+  intro r hr hnew hnc hq
+  have hnc1 : r.k ∉ (applyCancelU ub st k).cancelReq := fun h => hnc (ty.creq _ h)
+  have ho : isOneShot ((applyCancelU ub st k).getW r.handle).type = true := by
+    rcases hq with ⟨e, _⟩ | e <;> rw [e] <;> rfl
+  obtain ⟨hl, _, _, _⟩ := unbind_registered_is_queued ub st k b hal hok1 r hr hnew hnc1 ho
+  rcases hq with ⟨ht, hdue⟩ | ht
+  · obtain ⟨h1, h2, h3, h4⟩ := timer_once_in_iteration fuel (afterCancelU ub st k) nohang b1 q1 hal1 r hr ht hl hdue hok2 hnc
+    exact ⟨h2, Or.inl h1, h3, h4⟩
+  · obtain ⟨h1, h2, h3, h4⟩ := later_once_in_iteration fuel (afterCancelU ub st k) nohang b1 hal1 r hr ht hl hok2 hnc
+    exact ⟨h2, Or.inr h1, h3, h4⟩
+
 end Tickit.EvLoop
